@@ -70,7 +70,7 @@ fn to_violation(sig: &str, detail: &str) -> Violation {
 }
 
 pub fn run_into(scenarios: &[LoomScenario], report: &mut Report) {
-    report.assume("loom part: the socket layer's std RwLocks are loom's (feature verif_loom); DashMap, tokio channels and Arc are not instrumented, so scheduling points are the RwLock operations and thread spawn/join; sequentially consistent interleavings only");
+    report.assume("loom part: the socket layer's std RwLocks are loom's (elvis-core feature verif_loom) and DashMap's shard locks are a spin lock over a loom atomic (vendored dashmap, feature verif_loom, 4 shards as on a one-CPU machine); tokio channels and Arc are not instrumented, so scheduling points are lock operations and thread spawn/join; sequentially consistent interleavings only");
     for s in scenarios {
         match run_child(&s.name, s.preemptions, s.wall) {
             Err(e) => report.machinery_error(e),
